@@ -148,7 +148,8 @@ Proof.
   destruct j as [|j]; simpl in Hn.
   - inversion Hn; subst r0. rewrite Nat.add_0_r.
     fold (used_root roots D i) in H0. destruct (used_root roots D i) eqn:Eu.
-    + destruct (read_manifest f r) as [es|] eqn:Er; [|discriminate].
+    + destruct (f (mf_path r)) as [o|] eqn:Ep; [|discriminate].
+      destruct (read_manifest f r) as [es|] eqn:Er; [|discriminate].
       apply negb_false_iff in H0. intros tp. rewrite (root_managed_listing f r es Er).
       apply entries_same_listing. exact H0.
     + rewrite (unused_per_root roots D i r Eu). intros tp. unfold listing. simpl.
